@@ -6,6 +6,21 @@ import json, os
 HOOK_COMMITS = []  # filled from git below
 
 CHECKS = {
+    "C08": ("exploration", "PBT round-trip + tamper-rejection oracle over identity kinds × call sites, real ML-DSA (debug assertions off)",
+            "Identity kinds (generated, imported, from_seed, secure, derived path) × messages × tampers (any bit of message/signature/key, extension/truncation, another identity) × every signature-checking call site (ml_dsa_*, NodeIdentity, IPv4/IPv6NodeID per field, SignatureVerifier signature and file incl. unknown/not-yet-valid/expired pinned keys and wrong checksum, Single/Delegated/Threshold/Composite WriteAuth); genuine ⇒ accepted, tampered ⇒ rejected; every bit of one message exhaustively.",
+            "Sampled bit flips do not argue unforgeability; keys are generated per run (outcome is key-independent). ThresholdWriteAuth placeholder is a recorded known finding.", "5/C08"),
+    "C09": ("exploration", "stateful PBT: by-construction genuineness oracle + differential cached-vs-direct verdicts over presentation histories",
+            "Histories of genuine, field-altered, byte-altered, foreign-signed and foreign-id records over 4 key pairs presented to one SignatureCache (capacity 1..8 or 100): direct verification accepts exactly the genuine ones (incl. user id bound to the embedded key) and the cache returns the same verdict every time; constructor bounds on name length, endpoint count and lifetime.",
+            "Genuineness is known by construction (which fields were changed after signing, which key signed).", "5/C09"),
+    "C13": ("exploration", "model-based stateful PBT: reference counters per subnet/ASN level vs enforcer, routing-table path and bootstrap path",
+            "(a) analyse/add/can_accept/remove/set_network_size histories over nested IPv4/IPv6 prefix pools with ASN/hosting/VPN attributes vs reference counters (admit iff every level is below its possibly-halved cap; stats equal the model after every step); (b) DhtCoreEngine add/evict/failure with addresses in socket, bare-ip and library Display form: counters equal the admitted nodes after every step (slots returned, no partial admission); (c) BootstrapManager::add_peer over IPv4/IPv6.",
+            "Only admitted nodes are removed; core-engine and bootstrap paths have no GeoIP source.", "5/C13"),
+    "C18": ("exploration", "model-based stateful PBT + exhaustive single-byte corruption sweep + crash-image enumeration of the file update",
+            "store/retrieve(current|previous|other password)/change-password/clear-cache/reopen histories vs a reference model; every byte offset × 3 masks of a golden store file (thorough; quick every 4th offset) must fail or return the original seed; store and password change interrupted at each instrumented step (+ truncations of the temporary file) must reopen as exactly the old or the new contents.",
+            "SecurityLevel::Fast; crash points are the instrumented steps of encrypt_and_store.", "5/C18"),
+    "C19": ("exploration", "exhaustive boundary grid + seeded sampling with round-trip oracles; cross-component differential; malformed-input robustness",
+            "7776-point IPv4 boundary grid exhaustively, seeded samples of the 2^48 space, IPv6 classes, separator/case variants: published word form decodes to the same address, own Display rendering parses back, serde JSON/postcard and ContactEntry round trips, 6-byte prefix round trip; routing-table gate treats the library rendering like the socket form; malformed strings never panic or yield a different address.",
+            "An address for which no word form is published makes the four-word clauses vacuous (counted).", "5/C19"),
     "C02": ("exploration", "model-based stateful PBT: routing table vs reference set + sort",
             "Histories of join/add/failure/evict over ids drawn by bucket (incl. the local id and repeats) on a real DhtCoreEngine; the table must list each peer once and never the local node; find_nodes / FindNode / FindValue answers must equal the first min(n,|M|) entries of the reference set sorted by XOR distance, with the 20 / 8 protocol caps. The manager-reply clause is checked by the memnet sub-check once present.",
             "Membership after an add is read back from the table and constrained (nothing lost/foreign, acknowledged ids present) rather than re-modelled.", "5/C02"),
